@@ -587,3 +587,36 @@ def _two_rows_spec(data, result):
 
 
 c.ens("rows-are-unfiltered-by-their-own-tags-whatever-the-predictor-value", lambda data, result: _two_rows_spec(data, result))
+
+
+# -- the tables the dispatch rests on: filter names with their inline abbreviations (ISO 32000-1 Tables 6 and 94), colour-space component counts (8.6) --------
+@exhaustive("filter-names-and-colour-space-component-counts-are-ISO", props=["C03", "C16", "C18"],
+            note="pdftypes.LITERALS_*_DECODE are exactly the ISO filter names plus the inline-image abbreviations (Fl, LZW, A85, AHx, RL, CCF, DCT), interned names; "
+                 "pdfcolor.PREDEFINED_COLORSPACE has the ISO component counts (DeviceGray 1, DeviceRGB 3, DeviceCMYK 4, CalGray 1, CalRGB 3, Lab 3, Indexed 1, "
+                 "Separation 1, Pattern 1) with DeviceGray first (the default), and the inline-image colour-space abbreviations G, RGB, CMYK map to the device spaces")
+def _():
+    from pyvc.extract import real_module as _rm
+    pt_, ps_, pc_ = _rm("pdfminer.pdftypes"), _rm("pdfminer.psparser"), _rm("pdfminer.pdfcolor")
+    fails, cases = [], 0
+    want = {"LITERALS_FLATE_DECODE": ("FlateDecode", "Fl"), "LITERALS_LZW_DECODE": ("LZWDecode", "LZW"), "LITERALS_ASCII85_DECODE": ("ASCII85Decode", "A85"),
+            "LITERALS_ASCIIHEX_DECODE": ("ASCIIHexDecode", "AHx"), "LITERALS_RUNLENGTH_DECODE": ("RunLengthDecode", "RL"), "LITERALS_CCITTFAX_DECODE": ("CCITTFaxDecode", "CCF"),
+            "LITERALS_DCT_DECODE": ("DCTDecode", "DCT"), "LITERALS_JBIG2_DECODE": ("JBIG2Decode",), "LITERALS_JPX_DECODE": ("JPXDecode",)}
+    for k, names in want.items():
+        cases += 1
+        got = getattr(pt_, k, None)
+        if got is None or tuple(getattr(x, "name", None) for x in got) != names or any(x is not ps_.LIT(n) for x, n in zip(got, names)):
+            fails.append(dict(table=k, got=str(got), want=list(names)))
+    cases += 1
+    if pt_.LITERAL_CRYPT is not ps_.LIT("Crypt"):
+        fails.append(dict(table="LITERAL_CRYPT", got=str(pt_.LITERAL_CRYPT)))
+    cs = {"DeviceGray": 1, "CalRGB": 3, "CalGray": 1, "Lab": 3, "DeviceRGB": 3, "DeviceCMYK": 4, "Separation": 1, "Indexed": 1, "Pattern": 1}
+    cases += 1
+    got = {k: v.ncomponents for k, v in pc_.PREDEFINED_COLORSPACE.items()}
+    if got != cs or next(iter(pc_.PREDEFINED_COLORSPACE)) != "DeviceGray" or any(v.name != k for k, v in pc_.PREDEFINED_COLORSPACE.items()):
+        fails.append(dict(table="PREDEFINED_COLORSPACE", got=got))
+    for attr, name in (("LITERAL_DEVICE_GRAY", "DeviceGray"), ("LITERAL_DEVICE_RGB", "DeviceRGB"), ("LITERAL_DEVICE_CMYK", "DeviceCMYK"),
+                       ("LITERAL_INLINE_DEVICE_GRAY", "G"), ("LITERAL_INLINE_DEVICE_RGB", "RGB"), ("LITERAL_INLINE_DEVICE_CMYK", "CMYK")):
+        cases += 1
+        if getattr(pc_, attr, None) is not ps_.LIT(name):
+            fails.append(dict(table=attr, got=str(getattr(pc_, attr, None)), want=name))
+    return dict(cases=cases, failures=fails)
